@@ -165,6 +165,33 @@ func c3ArmSSA(c *Ctx, fn *ssa.Function, kv int64) *armInfo {
 				if h := helperOf(x); h != nil && takesField(h) {
 					return "" // explored inline: what it does shows up as its own calls
 				}
+				if !x.Call.IsInvoke() && x.Call.StaticCallee() == nil {
+					// a function value that is evident on this path (the entry of a table of adders indexed by the field
+					// type): explored inline as well
+					fv := x.Call.Value
+					for i := 0; i < 8; i++ {
+						if ct, isCT := fv.(*ssa.ChangeType); isCT {
+							fv = ct.X // a literal converted to the table's named function type
+							continue
+						}
+						if nx := st.Step(fv); nx != nil {
+							fv = nx
+						} else {
+							break
+						}
+					}
+					var h *ssa.Function
+					switch y := fv.(type) {
+					case *ssa.Function:
+						h = y
+					case *ssa.MakeClosure:
+						h, _ = y.Fn.(*ssa.Function)
+					}
+					if h != nil && len(h.Blocks) > 0 && takesField(h) {
+						return ""
+					}
+
+				}
 				ac := armCall{pos: x.Pos()}
 				if x.Call.IsInvoke() {
 					ac.name, ac.fn = FNm(x.Call.Method), x.Call.Method
